@@ -34,13 +34,15 @@ class GSpec:
             by.setdefault(l, []).append(alt)
         lines = ["%s: %s;" % (l, " | ".join(alts)) for l, alts in by.items()]
         if self.layout:
-            lines.append(self.layout)
+            lines.append(LAYOUTS[self.layout][0])
         lines.append("terminals")
         for n, (k, v) in self.terms.items():
             if k == "str":
                 lines.append('%s: "%s";' % (n, v))
             else:
                 lines.append("%s: /%s/;" % (n, v))
+        if self.layout:
+            lines.append(LAYOUTS[self.layout][1])
         return "\n".join(lines) + "\n"
 
     def key(self):
@@ -61,6 +63,19 @@ class GSpec:
         s.exhaustive = bool(d.get("exh"))
         s.corpus_inputs = list(d.get("corpus_inputs") or [])
         return s
+
+
+# LAYOUT rule variants: name -> (rules, terminals, fillers)
+LAYOUTS = {
+    "ws": ("LAYOUT: LayoutItem | LAYOUT LayoutItem | EMPTY;\nLayoutItem: WS;", "WS: /\\s+/;", [" ", "  ", "\n", "\t "]),
+    "ws1": ("LAYOUT: WS | EMPTY;", "WS: /\\s+/;", [" ", "  ", "\n", "\t "]),
+    "comment": ("LAYOUT: LayoutItem | LAYOUT LayoutItem | EMPTY;\nLayoutItem: WS | Comment;",
+                "WS: /\\s+/;\nComment: /#[^\\n]*/;", [" ", "\n", "#x\n", " # y z\n ", "#\n"]),
+    "block": ("LAYOUT: LayoutItem | LAYOUT LayoutItem | EMPTY;\nLayoutItem: WS | Comment;\n"
+              "Comment: '/*' CorNCs '*/';\nCorNCs: CorNC | CorNCs CorNC | EMPTY;\nCorNC: Comment | NotComment | WS;",
+              "WS: /\\s+/;\nNotComment: /((\\*[^\\/])|[^\\s*\\/]|\\/[^\\*])+/;",
+              [" ", "\n", "/* x */", " /* /* n */ y */ ", "/**/"]),
+}
 
 
 # ---- analysis of specs (only used to *select* cases, never as an oracle) ----
@@ -266,6 +281,7 @@ SAMPLES_FOR_RE = {"a+": ["a", "aa"], "[ab]": ["a", "b"], "bb?": ["b", "bb"], r"\
 
 
 def with_layout(rng, text, fillers=(" ", "  ", "\n", "\t ")):
+    fillers = list(fillers)
     """Insert layout at random character boundaries (used for grammars with
     single-character terminals, where every boundary is a token boundary)."""
     out = []
